@@ -5035,8 +5035,16 @@ def pprint(val,imports=None, prefix="\n    ", settings=[],
 script_repr_reg = {}
 
 
-# currently only handles list and tuple
+# handles list, tuple, dict and set
 def container_script_repr(container,imports,prefix,settings,qualify=False):
+    if isinstance(container,dict):
+        # keys and values are printed like any other value (a nested
+        # Parameterized qualified like its owner, inf as float('inf'))
+        return '{'+','.join(
+            pprint(k,imports,prefix,settings,qualify=qualify)+':'
+            +pprint(v,imports,prefix,settings,qualify=qualify)
+            for k,v in container.items())+'}'
+
     result=[]
     for i in container:
         result.append(pprint(i,imports,prefix,settings,qualify=qualify))
@@ -5046,6 +5054,10 @@ def container_script_repr(container,imports,prefix,settings,qualify=False):
         d1,d2='[',']'
     elif isinstance(container,tuple):
         d1,d2='(',')'
+    elif isinstance(container,set):
+        if not result:
+            return 'set()'
+        d1,d2='{','}'
     else:
         raise NotImplementedError
     if isinstance(container,tuple) and len(result)==1:
@@ -5087,6 +5099,8 @@ def type_script_repr(type_,imports,prefix,settings):
 
 script_repr_reg[list] = container_script_repr
 script_repr_reg[tuple] = container_script_repr
+script_repr_reg[dict] = container_script_repr
+script_repr_reg[set] = container_script_repr
 script_repr_reg[FunctionType] = function_script_repr
 script_repr_reg[float] = float_script_repr
 
